@@ -25,10 +25,11 @@ theorem PI.move (h : PI c none fl T C s) (i : Nat) (hc : i ∈ s.cache) (st : St
     (hf : (f (s.th i)).buf = (s.th i).buf ++ [st] ∧ (f (s.th i)).qStmts = rest ∧
       (f (s.th i)).accepted = (s.th i).accepted ∧ (f (s.th i)).q.wpos = (s.th i).q.wpos ∧
       (f (s.th i)).q.wHist.headD 0 = (s.th i).q.wHist.headD 0 ∧ (f (s.th i)).q.rpos = (s.th i).q.rpos + st.size ∧
-      (f (s.th i)).valid = (s.th i).valid ∧ (f (s.th i)).q.wcache = (s.th i).q.wcache)
+      (f (s.th i)).valid = (s.th i).valid ∧ (f (s.th i)).q.wcache = (s.th i).q.wcache ∧
+      (f (s.th i)).q.cap = (s.th i).q.cap)
     (hne : (s.th i).q.wcache ≠ (s.th i).q.rpos) :
     PI c none fl (fun j => T j ∧ j ≠ i) C (s.setTh i f) := by
-  obtain ⟨f1, f2, f3, f4, f5, f6, f7, f8⟩ := hf
+  obtain ⟨f1, f2, f3, f4, f5, f6, f7, f8, f9⟩ := hf
   have hchain : chain (f (s.th i)) = chain (s.th i) := by
     simp only [chain, f1, f2, hq, List.append_assoc, List.singleton_append]
   have hcases : ∀ j, (s.setTh i f).th j = s.th j ∨ (j = i ∧ (s.setTh i f).th j = f (s.th i)) := by
@@ -64,6 +65,11 @@ theorem PI.move (h : PI c none fl T C s) (i : Nat) (hc : i ∈ s.cache) (st : St
             refine ⟨k, by rw [f2]; simpa using hk, ?_⟩
             rw [f8, f6, f2, hw]; simp; omega
     reg := fun j => by rw [hch]; exact h.reg j
+    capOK := fun j hj => by
+      rw [length_setTh] at hj
+      rcases hcases j with h1 | ⟨rfl, h1⟩
+      · rw [h1]; exact h.capOK j hj
+      · rw [h1, f9]; exact h.capOK j hj
     bufCache := fun j hjr => by
       rcases hcases j with h1 | ⟨rfl, h1⟩
       · rw [h1]; exact h.bufCache j hjr
@@ -171,7 +177,7 @@ theorem PI.rqMove (h : PI c none fl T C s) (i : Nat) (hc : i ∈ C) (st : Stmt) 
   have e := hs.th i
   refine h2.move i (by rw [h2.cacheEq]; exact hc) st rest (by rw [e.q]; exact hq) hst _ ?_ hw
   have f1 := qFinishRead_fields s2.cfg (s2.th i).q st.size
-  exact ⟨rfl, rfl, rfl, f1.1, congrArg (fun l => List.headD l 0) f1.2.1, f1.2.2.1, rfl, f1.2.2.2⟩
+  exact ⟨rfl, rfl, rfl, f1.1, congrArg (fun l => List.headD l 0) f1.2.1, f1.2.2.1, rfl, f1.2.2.2.1, f1.2.2.2.2⟩
 
 variable {inj : BSt → Nat → BSt}
 
@@ -413,6 +419,11 @@ theorem PIo.pop (h : PIo c fl s)
       · rw [h1]; exact h.sorted i
       · rw [h1]; have := h.sorted i; rw [hcj] at this; exact (List.pairwise_cons.mp this).2
     leNow := fun i r hr => h.leNow i r (hsub i r hr)
+    capOK := fun i hi => by
+      have hi' : i < s.ths.length := by rw [← length_setTh s j f]; exact hi
+      rcases hcases i with h1 | ⟨rfl, h1⟩
+      · rw [h1]; exact h.capOK i hi'
+      · rw [h1, f4]; exact h.capOK i hi'
     qc := fun i => by
       rcases hcases i with h1 | ⟨rfl, h1⟩
       · rw [h1]; exact h.qc i
